@@ -75,6 +75,7 @@ struct Subject {
 	virtual void op(Bfs & b, int o) = 0;
 	virtual void verify(const char * when) = 0;   // observation vs model (disarmed)
 	virtual std::string key() = 0;
+	int cap(int quick) const { return ctx.tier >= 1 ? quick + 1 : quick; }   // size caps are one larger in the thorough tier
 	void body(Bfs & b) {
 		ledger().reset();
 		build();
@@ -112,7 +113,7 @@ struct SList : Subject {
 	bool isIn(int id) const { return std::find(ma.begin(), ma.end(), id) != ma.end(); }
 	void op(Bfs & b, int o) override {
 		if(o < 3) {
-			if(ma.size() >= 3) b.skip();
+			if((int)ma.size() >= cap(3)) b.skip();
 			int id = nextId++; handleOf.resize(nextId); Handle h;
 			int before = (o == 2 && slot[0] >= 0) ? slot[0] : -1;
 			typename L::Callback cb{FCb(id)};
@@ -201,7 +202,7 @@ struct SDisp : Subject {
 	int menu() override { return 4 + 2 + 2 + 2 + 1 + 1; }
 	void op(Bfs & b, int o) override {
 		if(o < 4) {
-			if(total() >= 3) b.skip();
+			if(total() >= cap(3)) b.skip();
 			int k = o % 2; bool prepend = o >= 2; int id = nextId++; handleOf.resize(nextId); keyOf.resize(nextId); Handle h;
 			FKey key(k + 1); typename D::Callback cb{FCb(id)};
 			ctx.log(fmt("%sListener(key %d) -> #%d", prepend ? "prepend" : "append", k, id));
@@ -300,7 +301,7 @@ struct SQueue : Subject {
 		}
 		o -= 1;
 		if(o < 4) {   // enqueue: payload as lvalue (copied) or rvalue (moved); two keys for the ordered variant (both dispatch to key 1 listeners through key==1 only)
-			if(pending.size() >= 3) b.skip();
+			if((int)pending.size() >= cap(3)) b.skip();
 			bool lvalue = o % 2 == 0; int key = 1 + (o / 2 && Ordered ? 1 : 0);
 			if(o / 2 && !Ordered) b.skip();
 			int id = nextEv++;
@@ -525,7 +526,7 @@ struct SHeter : Subject {
 template <typename Th>
 struct SRemovers : Subject {
 	typedef eventpp::CallbackList<void(int), P<Th> > L;
-	typedef eventpp::EventDispatcher<int, void(int), P<Th> > D;
+	typedef eventpp::EventDispatcher<FKey, void(int), P<Th> > D;   // the event type's copy can throw: the removers store a copy of the event next to the handle
 	L * l = nullptr; D * d = nullptr;
 	eventpp::ScopedRemover<L> * rl = nullptr; eventpp::ScopedRemover<D> * rd = nullptr;
 	std::vector<int> ml, md; std::set<int> viaScoped;
@@ -623,7 +624,7 @@ struct SHeterQueue : Subject {
 		}
 		o -= 2;
 		if(o < 3) {
-			if(pending.size() >= 3) b.skip();
+			if((int)pending.size() >= cap(3)) b.skip();
 			int id = nextEv++;
 			FPayload lv(id);
 			ctx.log(fmt("enqueue(%s %d)", o == 0 ? "int" : o == 1 ? "payload lvalue" : "payload rvalue", id));
